@@ -358,6 +358,9 @@ func (f *File) ReadAt(b []byte, off int64) (int, error) {
 	if f.kind != fRegular {
 		return 0, perr("read", f.name, syscall.ESPIPE)
 	}
+	if f.flag&(O_WRONLY|O_RDWR) == O_WRONLY {
+		return 0, perr("read", f.name, syscall.EBADF) // a handle opened for writing only cannot be read
+	}
 	if !f.noYield {
 		simrt.Syscall("pread", f.apath, len(b))
 	}
@@ -447,6 +450,12 @@ func (f *File) WriteAt(b []byte, off int64) (int, error) {
 	}
 	if f.flag&O_APPEND != 0 {
 		return 0, errors.New("os: invalid use of WriteAt on file opened with O_APPEND")
+	}
+	if len(b) == 0 {
+		return 0, nil // nothing to write: no system call is made
+	}
+	if f.flag&(O_WRONLY|O_RDWR) == 0 {
+		return 0, perr("write", f.name, syscall.EBADF) // a handle opened for reading only cannot be written
 	}
 	flt := simrt.Syscall("pwrite", f.apath, len(b))
 	if flt.Kind == simrt.FErr {
